@@ -579,9 +579,12 @@ Definition bc_item : Item := MkItem (list Z) unit (list tchange) (list Z) bc_ste
 
 Record tk_shared : Type := TS { ts_tick0 : Z; ts_commits : list (Z * list Z) }.
 
+(* FloorTime rounds down to a multiple of the tick size counted from Go's zero time (1 Jan of year 1, UTC) *)
+Definition GO_ZERO_UNIX : Z := -62135596800.
+
 Definition tk_step (size : Z) (o : commit * Z) (prev : Z) (s : tk_shared) : Z * tk_shared * Z :=
   let (c, index) := o in
-  let t0 := if index =? 0 then c_time c - (c_time c) mod size else ts_tick0 s in
+  let t0 := if index =? 0 then c_time c - (c_time c - GO_ZERO_UNIX) mod size else ts_tick0 s in
   let tick0 := Z.quot (c_time c - t0) size in
   let tick := if tick0 <? prev then prev else tick0 in
   let tc := match mget tick (ts_commits s) with Some l => l | None => [] end in
